@@ -609,3 +609,31 @@ def hpm_and_hpcm_conditions_aggregate_every_batch_once(S):
     loss = S.method(cond, "forward")
     lv = zreal(loss.val.at([() for _ in loss.val.shape]))
     S.ensure("loss-is-the-accumulator-after-all-M-batches", lv == Acc(Mz))
+
+
+@scenario("C16", [DU + ".__init__", DD + ".__init__", DU + ".__len__", DD + ".__len__"], configs=[f"{k}/{w}" for k in ("shared-trunk", "trunk-per-function") for w in ("trunk-whole", "branch-whole", "both-whole")])
+def a_negative_batch_size_means_the_whole_axis(S):
+    """batch size -1 ('use the whole axis'): the data set built with -1 has, field by field, the state of the data set
+    built with the explicit axis length -- number of LOCATIONS for the trunk axis (axis 1 of the per-function layout
+    [functions, locations, dim]), number of FUNCTIONS for the branch axis -- so the pairing / coverage contracts proved
+    for explicit batch sizes carry over"""
+    unique = S.cfg.startswith("trunk-per-function")
+    which = S.cfg.split("/")[1]
+    Nb, Nt = S.int("Nb", 1), S.int("Nt", 1)
+    bb, bt = S.int("bb", 1), S.int("bt", 1)
+    S.assume(z3.And(zint(bb) <= zint(Nb), zint(bt) <= zint(Nt)))
+    B = S.tensor("B", [Nb, 3, 1])
+    Tr = S.tensor("T", [Nb, Nt, 2] if unique else [Nt, 2])
+    O = S.tensor("O", [Nb, Nt, 1])
+    sb, st, so = S.new(R1, "f"), S.new(R2, "x"), S.new(R1, "u")
+    neg_b = which in ("branch-whole", "both-whole")
+    neg_t = which in ("trunk-whole", "both-whole")
+    cls = DU if unique else DD
+    a = S.new(cls, B, Tr, O, sb, st, so, -1 if neg_b else bb, -1 if neg_t else bt, shuffle_branch=False, shuffle_trunk=False)
+    b = S.new(cls, B, Tr, O, sb, st, so, Nb if neg_b else bb, Nt if neg_t else bt, shuffle_branch=False, shuffle_trunk=False)
+    for fld in ("branch_batch_size", "trunk_batch_size", "branch_batch_len", "trunk_batch_len"):
+        if fld in a.f or fld in b.f:
+            S.ensure(f"field-{fld}-as-with-the-explicit-axis-length", fld in a.f and fld in b.f and zint(a.f[fld]) == zint(b.f[fld]))
+    S.ensure("same-number-of-batches", zint(S.method(a, "__len__")) == zint(S.method(b, "__len__")))
+    S.ensure("resolved-trunk-batch-size-is-positive-and-at-most-the-number-of-locations", z3.And(zint(a.f["trunk_batch_size"]) >= 1, zint(a.f["trunk_batch_size"]) <= zint(Nt)))
+    S.ensure("resolved-branch-batch-size-is-positive-and-at-most-the-number-of-functions", z3.And(zint(a.f["branch_batch_size"]) >= 1, zint(a.f["branch_batch_size"]) <= zint(Nb)))
